@@ -345,6 +345,9 @@ static bool kind_ok(const std::string& k) { return k == "h" || (k.size() > 1 && 
 
 int main()
 {
+	// the global logger is not the subject here: library threads that log through it allocate from FastFlow's per-thread allocator, whose
+	// deregistration at thread exit is occasionally reported by ASan (heap-use-after-free in ff/allocator.hpp) - keep it silent
+	FIX8::GlobalLogger::set_levels(FIX8::Logger::Levels(FIX8::Logger::None));
 	vclock::skip_sleeps = true;
 	vclock::set(T0_MS * 1000000LL);
 	char tmpl[] = "/tmp/verif_gap_XXXXXX";
